@@ -5,6 +5,10 @@ import (
 	"context"
 	"errors"
 	"fmt"
+	"go.opentelemetry.io/collector/pdata/plog/plogotlp"
+	"go.opentelemetry.io/collector/pdata/pmetric/pmetricotlp"
+	"go.opentelemetry.io/collector/pdata/pprofile/pprofileotlp"
+	"go.opentelemetry.io/collector/pdata/ptrace/ptraceotlp"
 	"strings"
 
 	"go.opentelemetry.io/collector/consumer"
@@ -454,6 +458,29 @@ func (p pd) mutate(x any, witness string, kind int) {
 
 var _ = pcommon.NewMap
 
+// requestView wraps the payload in the OTLP export-request type of its signal (as an OTLP-sending stage does) and
+// returns a function that later appends through that view. Such a view is one more handle on the same data: once the
+// payload has been marked read-only, a mutation through a view taken BEFORE that must panic like any other.
+func (p pd) requestView(x any) func() {
+	switch p.sig {
+	case sigLogs:
+		v := plogotlp.NewExportRequestFromLogs(x.(plog.Logs))
+		return func() { v.Logs().ResourceLogs().AppendEmpty().Resource().Attributes().PutStr("WITNESS-view", "x") }
+	case sigTraces:
+		v := ptraceotlp.NewExportRequestFromTraces(x.(ptrace.Traces))
+		return func() { v.Traces().ResourceSpans().AppendEmpty().Resource().Attributes().PutStr("WITNESS-view", "x") }
+	case sigProfiles:
+		v := pprofileotlp.NewExportRequestFromProfiles(x.(pprofile.Profiles))
+		return func() {
+			v.Profiles().ResourceProfiles().AppendEmpty().Resource().Attributes().PutStr("WITNESS-view", "x")
+		}
+	}
+	v := pmetricotlp.NewExportRequestFromMetrics(x.(pmetric.Metrics))
+	return func() {
+		v.Metrics().ResourceMetrics().AppendEmpty().Resource().Attributes().PutStr("WITNESS-view", "x")
+	}
+}
+
 type c06Consumer struct {
 	n          int
 	mutates    bool // declared capability
@@ -660,7 +687,32 @@ func runC06(r *simkit.Run) {
 			r.Count("fault.request_context_over_on_entry")
 			cancelReq()
 		}
+		// an upstream stage may have wrapped the payload in an export-request view while it was still exclusively its own
+		var viaView func()
+		if !inputRO && tp.Chance(1, 4) {
+			viaView = p.requestView(payload)
+		}
 		r.Fire("consume", func() { err = fan.consume(reqCtx, payload) })
+		if viaView != nil && p.isReadOnly(payload) {
+			// the fan-out has shared the payload (marked it read-only): the old view must refuse to change it
+			r.Count("probe.mutation_through_a_request_view_taken_before_sharing")
+			before := p.bytes(payload)
+			panicked := false
+			func() {
+				defer func() {
+					if recover() != nil {
+						panicked = true
+					}
+				}()
+				viaView()
+			}()
+			if !panicked {
+				r.Failf("readonly", "view-taken-before-sharing-mutates", "the payload was wrapped in an export-request view before the fan-out shared it among %d non-mutating consumers; a mutation through that view did not panic", nRO)
+			}
+			if !bytes.Equal(p.bytes(payload), before) {
+				r.Failf("readonly", "view-taken-before-sharing-changed-data", "a mutation through an export-request view taken before the payload was shared changed the shared data")
+			}
+		}
 		// later tasks of declared-mutating consumers, in tape order
 		for len(later) > 0 {
 			k := tp.Draw(len(later))
